@@ -4,6 +4,7 @@
    no dead phase, the discipline of the single alarm slot, and monotone progress. *)
 From Coq Require Import ZArith List Bool.
 From F3 Require Import GoInt QuorumGen Instance InstanceOrder InstanceVotes InstanceTimers.
+From F3 Require InstanceDecide InstanceNoPanic Refine RefineNet HappyNet HappyLive.
 Import ListNotations.
 Open Scope Z_scope.
 
@@ -57,3 +58,22 @@ Print Assumptions C06_alarm_pending_refuted.
 Theorem C06_progress_monotone : forall c i e, Inv i -> wfe e -> progress_le i (step c i e).
 Proof. exact progress_monotone. Qed.
 Print Assumptions C06_progress_monotone.
+
+(* the synchronous, fault-free corner of the global statement, over the NETWORK of instance models (RefineNet.v), proved
+   for every committee and every schedule: honest members hold a strong quorum and propose the same chain, no faulty vote,
+   every delivery within the receiver's phase timeout (so no timer is needed).  Once every vote cast has reached every
+   honest member, every honest member has terminated -- in round 0 (C02: c02_happy_network_round0), with that chain. *)
+Theorem C06_timely_faultfree_terminates : forall c honest input v,
+  InstanceNoPanic.committee_wf c -> c_total c <= 65535 -> 0 <= c_rebro_round c -> (2 <= length v)%nat ->
+  (forall k, honest k = true -> input k = v) ->
+  forall hs, (forall k, RefineNet.member c honest k <-> In k hs) -> NoDup hs ->
+  isStrongQuorum (InstanceDecide.sum_power c hs) (c_total c) = true ->
+  forall acts, RefineNet.all_ok c honest (RefineNet.net0 input) acts -> HappyNet.all_happy c (RefineNet.net0 input) acts ->
+  let n := RefineNet.nrun c (RefineNet.net0 input) acts in
+  (forall k, RefineNet.member c honest k -> i_phase (RefineNet.n_inst n k) <> INITIAL) ->
+  (forall k s p, RefineNet.member c honest k -> RefineNet.member c honest s -> HappyLive.four p ->
+     In (Refine.voteS s 0 p v) (RefineNet.n_votes n) -> HappyLive.delivered acts k s p) ->
+  forall k, RefineNet.member c honest k ->
+    i_phase (RefineNet.n_inst n k) = TERMINATED /\ exists j, i_term (RefineNet.n_inst n k) = Some j /\ j_value j = v.
+Proof. exact HappyLive.happy_all_decide. Qed.
+Print Assumptions C06_timely_faultfree_terminates.
